@@ -12,6 +12,7 @@ import (
 
 	"github.com/bmatcuk/doublestar/v4"
 
+	"verifharness/internal/bin"
 	"verifharness/internal/choose"
 	"verifharness/internal/ev"
 	"verifharness/internal/pool"
@@ -607,6 +608,77 @@ func traceString(states []hstate, i int) string {
 }
 
 // histSearch explores the state graph of one program to closure.
+// binExec performs a run op through the built spok binary (`spok [--force|-f] --json tasks...`).
+func binExec(sb *proj.Sandbox, p hprog, text string, d hdisk, op hop, n int) (hexec, bool) {
+	if os.Getenv("VERIF_SPOK") == "" {
+		return hexec{}, false
+	}
+	materialise(sb, p, d)
+	os.WriteFile(filepath.Join(sb.Dir, "spokfile"), []byte(text), 0o644)
+	sb.SetFailing(op.Fail, p.taskNames())
+	sb.ClearLog()
+	args := append([]string{}, op.Req...)
+	if op.Force {
+		if n%2 == 0 {
+			args = append(args, "--force")
+		} else {
+			args = append([]string{"-f"}, args...)
+		}
+	}
+	args = append(args, "--json")
+	o := bin.Run(sb.Dir, sb.Root, []string{"VLOG=" + sb.Log, "VCTL=" + sb.Ctl, "VPROJ=" + sb.Dir}, args...)
+	var out proj.RunOut
+	out.Log = sb.ReadLog()
+	if o.Died() {
+		out.Panic = fmt.Sprintf("spok binary died: signal=%s timeout=%v: %s", o.Signal, o.TimedOut, firstLines(o.Stderr, 4))
+	} else if o.Exit != 0 {
+		out.RunErr = "spok exited " + strconv.Itoa(o.Exit) + ": " + firstLine(strings.TrimSpace(o.Stderr))
+	} else {
+		var rep []struct {
+			Task    string `json:"task"`
+			Skipped bool   `json:"skipped"`
+			Results []struct {
+				Status int `json:"status"`
+			} `json:"results"`
+		}
+		if err := json.Unmarshal([]byte(o.Stdout), &rep); err != nil {
+			out.RunErr = "spok --json output is not JSON: " + clip(o.Stdout)
+		}
+		for _, r := range rep {
+			tr := proj.TaskRes{Name: r.Task, Skipped: r.Skipped}
+			for _, c := range r.Results {
+				tr.Statuses = append(tr.Statuses, c.Status)
+			}
+			out.Results = append(out.Results, tr)
+		}
+	}
+	nd := readDisk(sb, p, d)
+	os.Remove(filepath.Join(sb.Dir, "spokfile"))
+	return hexec{Disk: nd, Out: out, Choice: []int{-1}}, true
+}
+
+// sameObservation: the binary's outcome cannot be told apart from an in-process one
+// (a failing command makes the binary exit non-zero without a report; the library still returns results).
+func sameObservation(lib, bx hexec) bool {
+	if lib.Disk.key() != bx.Disk.key() || strings.Join(lib.Out.Log, ",") != strings.Join(bx.Out.Log, ",") {
+		return false
+	}
+	libFailed := lib.Out.Failed()
+	for _, r := range lib.Out.Results {
+		for _, st := range r.Statuses {
+			if st != 0 {
+				libFailed = true
+			}
+		}
+	}
+	if libFailed || bx.Out.Failed() {
+		return libFailed == bx.Out.Failed() && bx.Out.Panic == ""
+	}
+	return string(pool.MustJSON(lib.Out.Results)) == string(pool.MustJSON(bx.Out.Results))
+}
+
+var binBudget int64 = 150
+
 func histSearch(sb *proj.Sandbox, p hprog, prop string, cap int, withForce bool, forceFree map[string]bool) (histResult, map[string]int) {
 	res := histResult{Program: p.Name, Outcomes: map[string]int64{}}
 	text := p.text()
@@ -633,8 +705,25 @@ func histSearch(sb *proj.Sandbox, p hprog, prop string, cap int, withForce bool,
 				var ok bool
 				if succs, ok = memo[mk]; !ok {
 					succs = execRun(sb, p, text, st.D, op)
-					memo[mk] = succs
 					res.Execs += int64(len(succs))
+					// conformance of the command line: the same op through the built binary becomes
+					// one more successor unless it is indistinguishable from an in-process outcome
+					if res.Conform < binBudget {
+						if bx, ok := binExec(sb, p, text, st.D, op, int(res.Conform)); ok {
+							res.Conform++
+							dup := false
+							for _, ex := range succs {
+								if sameObservation(ex, bx) {
+									dup = true
+								}
+							}
+							if !dup {
+								res.ConformBad++
+								succs = append(succs, bx)
+							}
+						}
+					}
+					memo[mk] = succs
 				}
 			} else {
 				succs = []hexec{{Disk: applyEdit(st.D, op)}}
@@ -717,6 +806,7 @@ func histWorker(args []string) {
 	cap := 60000
 	if tier == "thorough" {
 		cap = 400000
+		binBudget = 1500
 	}
 	var forceFree map[string]bool
 	if prop == "C14" {
@@ -763,7 +853,7 @@ func histCheck(prop, tier string) int {
 			run.Report(v)
 		}
 	})
-	var states, trans, execs, runs, skips, dstates int64
+	var states, trans, execs, runs, skips, dstates, conform, conformNew int64
 	outcomes := map[string]int64{}
 	perProg := map[string]any{}
 	exhaustive := true
@@ -775,6 +865,8 @@ func histCheck(prop, tier string) int {
 		runs += r.RunTrans
 		skips += r.SkipsSeen
 		dstates += r.DiskStates
+		conform += r.Conform
+		conformNew += r.ConformBad
 		if r.Capped {
 			exhaustive = false
 		}
@@ -796,6 +888,8 @@ func histCheck(prop, tier string) int {
 	run.Set("distinct_nontrivial", runs)
 	run.Set("real_run_executions", execs)
 	run.Set("disk_states", dstates)
+	run.Set("binary_invocations_replayed", conform)
+	run.Set("binary_outcomes_not_seen_in_process", conformNew)
 	run.Set("run_transitions", runs)
 	run.Set("skipped_results_checked", skips)
 	run.Set("bfs_depth_reached", maxDepth)
@@ -837,14 +931,21 @@ func histReplay(path string) int {
 			st.D = applyEdit(st.D, s.Op)
 			continue
 		}
-		c := choose.NewReplay(s.Choice)
-		setDagOrder(func(n int) []int { return c.Perm(n) })
-		materialise(sb, p, st.D)
-		sb.SetFailing(s.Op.Fail, p.taskNames())
-		out := sb.Run(text, s.Op.Force, s.Op.Req...)
-		setDagOrder(nil)
-		nd := readDisk(sb, p, st.D)
-		ex := hexec{Disk: nd, Out: out, Choice: c.Taken}
+		var ex hexec
+		if len(s.Choice) == 1 && s.Choice[0] == -1 {
+			// this step was an invocation of the built binary
+			fmt.Println("    (through the spok binary)")
+			ex, _ = binExec(sb, p, text, st.D, s.Op, i)
+		} else {
+			c := choose.NewReplay(s.Choice)
+			setDagOrder(func(n int) []int { return c.Perm(n) })
+			materialise(sb, p, st.D)
+			sb.SetFailing(s.Op.Fail, p.taskNames())
+			o := sb.Run(text, s.Op.Force, s.Op.Req...)
+			setDagOrder(nil)
+			ex = hexec{Disk: readDisk(sb, p, st.D), Out: o, Choice: c.Taken}
+		}
+		out, nd := ex.Out, ex.Disk
 		nm, vs := evalRun(p, st.D, st.M, s.Op, ex)
 		for _, r := range out.Results {
 			fmt.Printf("    task %s skipped=%v\n", r.Name, r.Skipped)
